@@ -552,10 +552,11 @@ impl Source {
     pub fn rules_requires_root(&self) -> Option<bool> {
         self.0
             .get("Rules-Requires-Root")
-            .map(|s| match s.to_lowercase().as_str() {
-                "yes" => true,
-                "no" => false,
-                _ => panic!("invalid Rules-Requires-Root value"),
+            .and_then(|s| match s.to_lowercase().as_str() {
+                "yes" | "binary-targets" => Some(true),
+                "no" => Some(false),
+                // a list of keywords (<namespace>/<case>): not a yes/no answer
+                _ => None,
             })
     }
 
